@@ -22,6 +22,7 @@ import (
 	"sort"
 	"strconv"
 	"strings"
+	"unicode/utf8"
 	. "verifharness/hlib"
 
 	"github.com/itchyny/gojq/cli"
@@ -439,7 +440,7 @@ func implFin(res result) string {
 	return fmt.Sprintf("(other %d %s)", res.code, Hexs([]byte(res.stderr)))
 }
 
-func streamChecks(c *Ctx, text string, nums []span, everyByte bool) {
+func streamChecks(c *Ctx, text string, nums []span, cuts []int) {
 	fullToks, fullEnd, _ := tokenize(text)
 	docs, okDocs := decodeAll(text)
 	if fullEnd != "eof" || !okDocs {
@@ -480,11 +481,11 @@ func streamChecks(c *Ctx, text string, nums []span, everyByte bool) {
 		c.Violation("%s :: --stream -s differs from --stream -n [inputs]", caseText([]string{"--stream", "-s", "-c", "."}, text, nil))
 	}
 	c.Count("stream:oracles")
-	if !everyByte {
-		return
-	}
-	// truncated at every byte
-	for k := 0; k < len(text); k++ {
+	// truncated at the given bytes (every byte for ordinary texts)
+	for _, k := range cuts {
+		if k < 0 || k >= len(text) {
+			continue
+		}
 		t := text[:k]
 		tres := runCLI([]string{"--stream", "-c", "."}, t)
 		tevs, ok := parseEvents(tres.stdout)
@@ -621,6 +622,109 @@ func genRaw(r *Rng) string {
 	return b.String()
 }
 
+// sizes around bufio's default buffer (4096), jsonInputIter's 16 KiB window and 64 KiB
+var quickBig = []int{4096, 4095, 4097, 10000, 16384}
+var thoroughBig = []int{4095, 4096, 4097, 8192, 10000, 16383, 16384, 16385, 65536, 70000}
+
+func allCuts(n int) []int {
+	cs := make([]int, n)
+	for i := range cs {
+		cs[i] = i
+	}
+	return cs
+}
+
+func longLine(r *Rng, n int) string {
+	var b strings.Builder
+	if n >= 2 && r.Chance(1, 3) {
+		b.WriteString("é")
+	}
+	for b.Len() < n {
+		b.WriteByte(byte('a' + r.Intn(26)))
+	}
+	return b.String()
+}
+
+// raw text with at least one line of exactly `size` bytes (excluding the terminator); terminators \n,
+// \r\n or none at the end of the text
+func genRawBig(r *Rng, size int) string {
+	var b strings.Builder
+	nl := 1 + r.Intn(3)
+	at := r.Intn(nl)
+	for i := 0; i < nl; i++ {
+		if i == at {
+			b.WriteString(longLine(r, size))
+		} else if r.Chance(1, 3) {
+			b.WriteString(longLine(r, size+r.Intn(3)-1))
+		} else {
+			b.WriteString(rawPool[r.Intn(len(rawPool))])
+		}
+		switch {
+		case i == nl-1 && r.Chance(1, 2):
+		case r.Chance(1, 3):
+			b.WriteString("\r\n")
+		default:
+			b.WriteString("\n")
+		}
+	}
+	return b.String()
+}
+
+// JSON text of about `size` bytes: a long string, a long array, a long key or a long run of whitespace,
+// among small documents
+func genJSONBig(r *Rng, size int, allowBad bool) string {
+	var b strings.Builder
+	if r.Chance(1, 2) {
+		t, _ := genStream(r, 1, 1)
+		b.WriteString(t + "\n")
+	}
+	switch r.Intn(4) {
+	case 0:
+		b.WriteString(`"` + longLine(r, size) + `"`)
+	case 1:
+		b.WriteString("[")
+		for i := 0; b.Len() < size; i++ {
+			if i > 0 {
+				b.WriteString(",")
+			}
+			b.WriteString(numPool[r.Intn(len(numPool))])
+		}
+		b.WriteString("]")
+	case 2:
+		b.WriteString(`{"` + longLine(r, size) + `":[{"k":"` + longLine(r, 10) + `"}],"z":null}`)
+	default:
+		b.WriteString("[1," + strings.Repeat(" ", size) + `"x"]` + strings.Repeat("\n", 3))
+	}
+	b.WriteString("\n")
+	if r.Chance(1, 2) {
+		t, _ := genStream(r, 1+r.Intn(2), 1)
+		b.WriteString(t)
+	}
+	if allowBad && r.Chance(1, 4) {
+		b.WriteString(" " + garbage[r.Intn(len(garbage))])
+	}
+	return b.String()
+}
+
+// --stream over a large text: whole, and truncated around the buffer boundaries and at random bytes
+func bigStreamChecks(c *Ctx, size int) {
+	text := genJSONBig(c.Rng, size, false)
+	cuts := []int{0, 1, len(text) - 1, len(text) - 2}
+	for _, b := range []int{512, 4096, 8192, 16384, 32768, 65536} {
+		for d := -1; d <= 1; d++ {
+			cuts = append(cuts, b+d)
+		}
+	}
+	for i := 0; i < 12; i++ {
+		cuts = append(cuts, c.Rng.Intn(len(text)))
+	}
+	for _, sk := range []bool{false, true} {
+		seekableStdin = sk
+		streamChecks(c, text, findNums(text), cuts)
+	}
+	c.Count("stream:big")
+}
+
 func genJSONText(r *Rng, allowBad bool) string {
 	nd := r.Intn(4)
 	text := ""
@@ -646,8 +750,20 @@ type modeSpec struct {
 	jq         string
 }
 
-func inputsChecks(c *Ctx, dir string, round int) {
+func inputsChecks(c *Ctx, dir string, round int, big int) {
 	r := c.Rng
+	mkRaw := func() string {
+		if big > 0 && r.Chance(2, 3) {
+			return genRawBig(r, big)
+		}
+		return genRaw(r)
+	}
+	mkJSON := func() string {
+		if big > 0 && r.Chance(2, 3) {
+			return genJSONBig(r, big, true)
+		}
+		return genJSONText(r, true)
+	}
 	modes := []modeSpec{
 		{nil, 0, 0, 0, 0, "id", "."},
 		{[]string{"-n"}, 0, 0, 0, 1, "inputs", "[inputs]"},
@@ -681,9 +797,9 @@ func inputsChecks(c *Ctx, dir string, round int) {
 		}
 		stdinText := ""
 		if raw {
-			stdinText = genRaw(r)
+			stdinText = mkRaw()
 		} else {
-			stdinText = genJSONText(r, true)
+			stdinText = mkJSON()
 		}
 		for i := 0; i < nfiles; i++ {
 			name := filepath.Join(dir, fmt.Sprintf("r%d_%v_f%d.json", round, raw, i))
@@ -693,9 +809,9 @@ func inputsChecks(c *Ctx, dir string, round int) {
 			}
 			var text string
 			if raw {
-				text = genRaw(r)
+				text = mkRaw()
 			} else {
-				text = genJSONText(r, true)
+				text = mkJSON()
 			}
 			if err := os.WriteFile(name, []byte(text), 0o644); err != nil {
 				panic(err)
@@ -827,6 +943,23 @@ func inputsChecks(c *Ctx, dir string, round int) {
 				if !ok || rs.code != 0 || len(got) != 1 || got[0] != strings.Join(texts, "") {
 					c.Violation("%s :: -Rs does not yield the whole text", caseText(shortArgs(append([]string{"-Rs", "-c", "."}, operands...), dir), stdinText, files))
 				}
+				// -n -R [inputs|length]: the number of code points of every line
+				var lens []any
+				for _, l := range lines {
+					lens = append(lens, json.Number(strconv.Itoa(utf8.RuneCountInString(l.(string)))))
+				}
+				rl := runCLI(append([]string{"-n", "-R", "-c", "[inputs|length]"}, operands...), stdinText)
+				got, ok = decodeAll(rl.stdout)
+				gl, _ := func() ([]any, bool) {
+					if len(got) == 1 {
+						a, ok := got[0].([]any)
+						return a, ok
+					}
+					return nil, false
+				}()
+				if !ok || rl.code != 0 || len(got) != 1 || !(reflect.DeepEqual(gl, lens) || len(gl) == 0 && len(lens) == 0) {
+					c.Violation("%s :: -n -R [inputs|length] does not give the line lengths", caseText(shortArgs(append([]string{"-n", "-R", "-c", "[inputs|length]"}, operands...), dir), stdinText, files))
+				}
 				if len(texts) == 1 {
 					eq([]string{"-R", "-n", "-c", "[inputs]"}, []string{"-Rs", "-c", `split("\n") | if .[-1] == "" then .[:-1] else . end`}, "-R lines")
 				}
@@ -916,7 +1049,10 @@ func argsChecks(c *Ctx, dir string, round int) {
 			}
 			posActive = true
 		case k < 6 && !dashdash:
-			words = append(words, []string{"-n", "-c", "-nc", "--compact-output", "-r"}[r.Intn(5)])
+			// output flags and INPUT-MODE flags: none of them may change what the argument flags bind
+			bf := []string{"-n", "-c", "-nc", "--compact-output", "-r", "-R", "-s", "-Rs", "-sR", "--stream", "--raw-input",
+				"--slurp", "--yaml-input", "-Rn", "--null-input"}
+			words = append(words, bf[r.Intn(len(bf))])
 		case k == 6 && queryPlaced && posActive && !dashdash:
 			words = append(words, "--")
 			dashdash = true
@@ -1028,6 +1164,71 @@ func argsChecks(c *Ctx, dir string, round int) {
 	}
 }
 
+// --slurpfile / --rawfile / --argjson under EVERY input mode: the file named by --slurpfile is always
+// read as JSON (`--slurpfile x f` = `--argjson x "$(gojq -s -c . f)"`), --rawfile binds the exact text
+func fileFlagModes(c *Ctx, dir string, round int) {
+	r := c.Rng
+	jf := filepath.Join(dir, fmt.Sprintf("m%d_j.json", round))
+	rf := filepath.Join(dir, fmt.Sprintf("m%d_r.txt", round))
+	jtext := genJSONText(r, r.Chance(1, 6))
+	if r.Chance(1, 3) { // lines that would parse differently as raw text
+		jtext = "1\n[2,\n3]\n\"four\"\n" + jtext
+	}
+	rtext := genRaw(r)
+	os.WriteFile(jf, []byte(jtext), 0o644)
+	os.WriteFile(rf, []byte(rtext), 0o644)
+	files := map[string]string{filepath.Base(jf): jtext, filepath.Base(rf): rtext}
+	curFiles = files
+	defer func() { curFiles = nil }()
+	slurped := runCLI([]string{"-s", "-c", ".", jf}, "")
+	modes := [][]string{nil, {"-R"}, {"-R", "-s"}, {"-Rs"}, {"--stream"}, {"-s"}, {"--stream", "-s"}, {"--yaml-input"}, {"--raw-input", "--slurp"}}
+	stdins := map[string]string{"": "", "R": "l1\nl2\n", "j": "1 [2] {\"a\":3}"}
+	for _, m := range modes {
+		for _, null := range []bool{true, false} {
+			pre := append([]string{"-c"}, m...)
+			stdin := ""
+			q := "$x"
+			if null {
+				pre = append(pre, "-n")
+			} else {
+				q = "[., $x]"
+				switch {
+				case len(m) > 0 && (strings.Contains(m[0], "R") || strings.Contains(m[0], "raw")):
+					stdin = stdins["R"]
+				default:
+					stdin = stdins["j"]
+				}
+			}
+			a := append(append([]string{}, pre...), "--slurpfile", "x", jf, q)
+			ra := runCLI(a, stdin)
+			ct := caseText(shortArgs(a, dir), stdin, files)
+			if slurped.code == 0 {
+				b := append(append([]string{}, pre...), "--argjson", "x", strings.TrimSpace(slurped.stdout), q)
+				rb := runCLI(b, stdin)
+				if ra.stdout != rb.stdout || ra.code != rb.code {
+					c.Violation("%s :: --slurpfile differs from --argjson with the slurped values of the file", ct)
+				}
+			} else if ra.code == 0 {
+				c.Violation("%s :: --slurpfile of a malformed file succeeds", ct)
+			}
+			// --rawfile: the exact text, compared with --arg of the same text
+			a2 := append(append([]string{}, pre...), "--rawfile", "x", rf, q)
+			b2 := append(append([]string{}, pre...), "--arg", "x", rtext, q)
+			ra2, rb2 := runCLI(a2, stdin), runCLI(b2, stdin)
+			if ra2.stdout != rb2.stdout || ra2.code != rb2.code {
+				c.Violation("%s :: --rawfile differs from --arg with the text of the file", caseText(shortArgs(a2, dir), stdin, files))
+			}
+			if null {
+				vals, ok := decodeAll(ra2.stdout)
+				if !ok || len(vals) != 1 || vals[0] != rtext {
+					c.Violation("%s :: --rawfile does not bind the exact text", caseText(shortArgs(a2, dir), stdin, files))
+				}
+			}
+			c.Count("equiv:fileflags")
+		}
+	}
+}
+
 // ---------------------------------------------------------------------------------------------
 
 func runC16(c *Ctx) {
@@ -1042,10 +1243,26 @@ func runC16(c *Ctx) {
 		seekableStdin = c.Rng.Chance(1, 4)
 		ndocs := 1 + c.Rng.Intn(3)
 		text, nums := genStream(c.Rng, ndocs, 1+c.Rng.Intn(3))
-		streamChecks(c, text, nums, len(text) <= 160 || c.Tier != "quick")
-		inputsChecks(c, dir, i)
+		if len(text) <= 160 || c.Tier != "quick" {
+			streamChecks(c, text, nums, allCuts(len(text)))
+		} else {
+			streamChecks(c, text, nums, nil)
+		}
+		big := 0
+		if c.Tier == "quick" {
+			if i < len(quickBig) {
+				big = quickBig[i]
+			}
+		} else if i%40 == 0 {
+			big = thoroughBig[(i/40)%len(thoroughBig)]
+		}
+		inputsChecks(c, dir, i, big)
+		if big > 0 {
+			bigStreamChecks(c, big)
+		}
 		argsChecks(c, dir, i)
 		argsChecks(c, dir, i)
+		fileFlagModes(c, dir, i)
 		if i%50 == 49 { // keep the temp dir small
 			es, _ := os.ReadDir(dir)
 			for _, e := range es {
@@ -1058,7 +1275,7 @@ func runC16(c *Ctx) {
 		"[1,[2,[3]],4]", `{"b":1,"a":{"d":[],"c":2},"e":[{"f":null}]}`, "[[1],2]", `[{"a":1},{"b":2}]`, "1 2 3", "[] {} 0",
 		`{"a":[1,{"b":2}],"c":3} [4]`, " \n[ 1 , 2 ]\n\n{ \"k\" : [ ] }\n", "[1,[]]", "[[],1]", `{"a":{},"b":1}`, `[{"a":[{"b":[]}]},7]`} {
 		seekableStdin = false
-		streamChecks(c, text, findNums(text), true)
+		streamChecks(c, text, findNums(text), allCuts(len(text)))
 	}
 }
 
